@@ -35,6 +35,22 @@ Definition is_record_oty (t : oty) : bool :=
 Definition is_deref_binop (op : binop) : bool :=
   match op with BHasTag | BGetTag | BIn => true | _ => false end.
 
+(* The Record arm of check_entity_deref_target_level on the per-attribute results
+   (key, (errors of check_expr_level on the attribute, result of the deref-target check on it)):
+   `attrs.get_key_value(a)`; every OTHER attribute goes through check_expr_level, the accessed one
+   through check_entity_deref_target_level; no such attribute: InternalInvariantViolation. *)
+Definition rec_result := (list lerr * (N * list lerr))%type.
+Fixpoint rec_others (a : str) (rs : list (str * rec_result)) : list lerr :=
+  match rs with
+  | [] => []
+  | (k, (o, _)) :: l => if str_eqb a k then rec_others a l else o ++ rec_others a l
+  end.
+Definition rec_pick (a : str) (rs : list (str * rec_result)) : N * list lerr :=
+  match lookup a rs with
+  | Some (_, ra) => (fst ra, rec_others a rs ++ snd ra)
+  | None => (0%N, [LInternal])
+  end.
+
 Section Level.
   Variable action : uid.       (* env.action_entity_uid() of a DeclaredAction environment *)
   Variable maxl : N.           (* max_level *)
@@ -66,18 +82,7 @@ Section Level.
         | TERecord items _ =>
             match path with
             | a :: path' =>
-                let r := (fix go (l : list (str * texpr)) : list lerr * option (N * list lerr) :=
-                            match l with
-                            | [] => ([], None)
-                            | (k, x) :: l' =>
-                                let r' := go l' in
-                                if str_eqb k a then (fst r', Some (lv (Some path') x))
-                                else (snd (lv None x) ++ fst r', snd r')
-                            end) items in
-                match snd r with
-                | Some ra => (fst ra, fst r ++ snd ra)
-                | None => (0%N, [LInternal])
-                end
+                rec_pick a (map (fun kv => (fst kv, (snd (lv None (snd kv)), lv (Some path') (snd kv)))) items)
             | [] => (0%N, [LInternal])
             end
         | _ => (0%N, [LInternal])
@@ -95,8 +100,7 @@ Section Level.
               (0%N, snd ra ++ over (fst ra) ++ snd (lv None b))
             else (0%N, snd (lv None a) ++ snd (lv None b))
         | TEExtCall _ args _ =>
-            (0%N, (fix go (l : list texpr) : list lerr :=
-                     match l with [] => [] | x :: l' => snd (lv None x) ++ go l' end) args)
+            (0%N, concat (map (fun x => snd (lv None x)) args))
         | TEHasAttr x _ _ | TEGetAttr x _ _ =>
             if is_entity_oty (ty_of x) then
               let ra := lv (Some []) x in (0%N, snd ra ++ over (fst ra))
@@ -105,11 +109,9 @@ Section Level.
         | TELike x _ _ => (0%N, snd (lv None x))
         | TEIs x _ _ => (0%N, snd (lv None x))
         | TESet items _ =>
-            (0%N, (fix go (l : list texpr) : list lerr :=
-                     match l with [] => [] | x :: l' => snd (lv None x) ++ go l' end) items)
+            (0%N, concat (map (fun x => snd (lv None x)) items))
         | TERecord items _ =>
-            (0%N, (fix go (l : list (str * texpr)) : list lerr :=
-                     match l with [] => [] | (_, x) :: l' => snd (lv None x) ++ go l' end) items)
+            (0%N, concat (map (fun kv => snd (lv None (snd kv))) items))
         end
     end.
 
